@@ -138,6 +138,7 @@ fn perm_case() -> impl Strategy<Value = PermCase> {
         duplicate_solution_pct: 12,
         hostile: false,
         calm: false,
+        bulk_pct: 4,
     };
     (proptest::collection::vec(any::<u32>(), 60..700), proptest::collection::vec(any::<u32>(), 0..8)).prop_map(move |(c, p)| PermCase {
         case: build_case(c, &cfg),
